@@ -1,4 +1,5 @@
 mod density;
+mod derive_schema;
 mod fault_sweep;
 mod momentum;
 mod record;
@@ -6,6 +7,7 @@ mod record_sampler;
 mod replay_kernels;
 mod replay_lattice;
 mod replay_nuts;
+mod replay_pool;
 mod replay_massmatrix;
 mod replay_stepsize;
 mod replay_storage;
@@ -24,6 +26,8 @@ fn main() {
         "replay-massmatrix" => replay_massmatrix::main(rest),
         "replay-stepsize" => replay_stepsize::main(rest),
         "replay-storage" => replay_storage::main(rest),
+        "replay-pool" => replay_pool::main(rest),
+        "derive-schema" => derive_schema::main(rest),
         _ => {
             eprintln!("usage: vh <replay-nuts|...> args");
             2
